@@ -105,6 +105,49 @@ func rulePipeClose(c *Ctx) {
 			c.obMustUnder("abort pipe", f, []string{"pipe-abort"}, aPipeOpen)
 		}
 	}
+	// ... and do so before calling into the backend: a Session.Reset/Logout that waits for the running Data call
+	// (the two run on different goroutines during BDAT) would otherwise never see its reader fail
+	for _, fn := range []string{"(*Conn).reset", "(*Conn).Close"} {
+		f := c.A.Func(fn)
+		if f == nil {
+			continue
+		}
+		v := RunPend(f, PendRule{
+			StartPending: true,
+			Disch: func(in ssa.Instruction) bool {
+				if c.mustDo("pipe-abort")(in) {
+					return true
+				}
+				// an unexported helper that tests the pipe itself and certainly aborts an open one
+				cc := callCommon(in)
+				if cc == nil {
+					return false
+				}
+				if _, isDefer := in.(*ssa.Defer); isDefer {
+					return false
+				}
+				g := staticCallee(cc)
+				if g == nil || !inSmtp(g) || isExported(g) || g.Blocks == nil {
+					return false
+				}
+				gm, gex := s.MustUnder(g, c.F.SkipUnder(aPipeOpen))
+				return gex > 0 && gm["pipe-abort"]
+			},
+			Forbid: func(in ssa.Instruction) bool {
+				if _, ok := in.(*ssa.Defer); ok {
+					return false
+				}
+				return hasAny(s.InstrMay(in), lSessReset, lLogout)
+			},
+			SkipEdge: c.F.SkipUnder(aPipeOpen),
+			PhiOK:    c.F.PhiFeasible(aPipeOpen),
+		})
+		d := ""
+		if len(v) > 0 {
+			d = fmt.Sprintf("with a transfer in progress the backend is called at %s before the pipe has been aborted: a Reset/Logout that synchronises with the running Data call blocks forever and the abandoned message's reader never fails", c.P.InstrPos(v[0].At))
+		}
+		R.Ob(fn+"/abort precedes the backend callback", c.P.Pos(f.Pos()), len(v) == 0, d)
+	}
 	// the abandoning commands reach those two functions
 	ruleAbandonResets(c)
 	if f := c.A.Func("(*Server).handleConn"); f != nil {
@@ -266,5 +309,10 @@ func runC07(c *Ctx) {
 	ruleEOFOnlyAtEnd(c)
 	rulePipeClose(c)
 	ruleNoPositiveAfterShortCopy(c)
-	var _ ssa.Instruction
+	// a chunk the server threw away for exceeding the size limit ends the transfer: otherwise a later "BDAT 0 LAST"
+	// closes the pipe cleanly and the backend reads a message with a chunk missing up to a clean end-of-file
+	c.R.Rule("R-oversize-chunk-aborts", "E2 must-pass-through", "after the 552 refusal of a chunk every path through handleBdat passes through reset() (which aborts the pipe with ErrDataReset)", 1)
+	if f := c.A.Func("(*Conn).handleBdat"); f != nil {
+		c.obFollow("552 then reset", f, c.direct("reply:552"), []string{lReset}, nil, nil)
+	}
 }
